@@ -459,6 +459,68 @@ def defaults(chk, prog):
         chk.ob("R5.defaults", CFG + "Config::from_tree", f"default of `{k}` equals Config::default()'s value", seen.get(k, "").strip("into()") .replace("into(", "").rstrip(")") in (v,) or v in seen.get(k, ""), f"{seen.get(k)}")
 
 
+def errors_propagate(chk, prog):
+    """R2.errors_propagate: a faulty file is rejected, never accepted with a different meaning.  The Result of every fallible step of the loader
+    (a function of humphrey_server::config returning Result) is looked at where it is produced — `?`, a `match` / `if let` on it, or returned as
+    it is; inside an iterator closure only as `.map(|x| step(x))` whose results are collected into a Result.  An adaptor that iterates over the
+    Result itself (`flat_map`, `filter_map`, `flatten`, `.ok()`) silently drops the faulty host / route."""
+    n = 0
+    for pth, bb in sorted(prog.bodies.items()):
+        if not pth.startswith("humphrey_server::config::") or "promoted" in pth:
+            continue
+        for blk, t in bb.calls():
+            r = t.get("resolved") or ""
+            if not r.startswith("humphrey_server::config::") or r not in prog.bodies or t.get("dest") is None or t["dest"]["p"]:
+                continue
+            dl = t["dest"]["l"]
+            if not (bb.local_ty(dl) or "").startswith("std::result::Result<"):
+                continue
+            n += 1
+            name = r.rsplit("::", 1)[-1]
+            looked = False
+            # followed through plain moves
+            locs = {dl}
+            changed = True
+            while changed:
+                changed = False
+                for blk2 in bb.blocks:
+                    for st in blk2["stmts"]:
+                        rv = st.get("rv")
+                        if rv and rv.get("k") == "use" and core.op_local(rv["o"]) in locs and not rv["o"]["pl"]["p"] and "pl" in st and not st["pl"]["p"] and st["pl"]["l"] not in locs:
+                            locs.add(st["pl"]["l"])
+                            changed = True
+            returned = 0 in locs
+            for blk2, blk_ in enumerate(bb.blocks):
+                for st in blk_["stmts"]:
+                    rv = st.get("rv")
+                    if rv and rv.get("k") == "discr" and rv["pl"]["l"] in locs:
+                        looked = True
+                t2 = blk_["term"]
+                if t2 and t2["k"] == "call" and core.call_matches(t2, r"Try::branch$|Result::<T, E>::(map_err|and_then|or_else|map)$") and t2["args"] and core.op_local(t2["args"][0]) in locs:
+                    looked = True
+            ok = looked
+            why = "its Result is neither tested nor propagated"
+            if not looked and returned:
+                if bb.kind == "closure":
+                    site = core.closure_site(prog, bb)
+                    host_ok = False
+                    if site:
+                        hb, _ = site
+                        for hblk, ht in hb.calls():
+                            if any(core.describe(prog, hb, a)[0:2] == ("closure", bb.path) for a in ht["args"]):
+                                adaptor = (ht.get("callee") or "").rsplit("::", 1)[-1]
+                                collects = [t3 for _, t3 in hb.calls_to(r"Iterator>?::collect$|Iterator::collect$|Iterator::try_for_each$|Iterator>?::try_fold$") if (hb.local_ty(t3["dest"]["l"]) or "").startswith("std::result::Result<")]
+                                host_ok = adaptor in ("map",) and bool(collects)
+                                why = f"the closure's Result goes into `{adaptor}`" + ("" if collects else " and is not collected into a Result")
+                    ok = host_ok
+                else:
+                    ok = True       # returned to the caller as it is
+            chk.ob("R2.errors_propagate", pth, f"the Result of {name}() is tested or propagated", ok,
+                   f"{why}: a fault that {name} reports no longer rejects the file (the faulty host / route silently disappears from the loaded configuration)",
+                   where=bb.where(blk))
+    chk.floor("fallible loader steps", n, 8)
+
+
 def comments_everywhere(chk, prog):
     """R4.comments: a comment may follow any line.  Every line the tree parser takes from its line iterator goes through `clean_up` (comment
     removed, trimmed) before anything looks at it; a site that compares the raw line (e.g. the search for `server {`) makes the meaning of a
@@ -515,6 +577,7 @@ def run(chk):
     error_lines(chk, prog)
     line_source(chk, prog)
     comments_everywhere(chk, prog)
+    errors_propagate(chk, prog)
     ordering(chk, prog)
     per_pattern_routes(chk, prog)
     quoted_values(chk, prog)
